@@ -930,9 +930,6 @@ public:
                      sizeof(uint64_t) * numEdges);
       readPosition =
           ((4 + numNodes) * sizeof(uint64_t) + numEdges * sizeof(uint64_t));
-      if (numEdges % 2) {
-        readPosition += sizeof(uint64_t);
-      }
     } else {
       GALOIS_DIE("unknown file version: ", version);
     }
